@@ -174,13 +174,16 @@ Definition scaled_ok (v v' : list Q) (t : Q) : bool :=
   Qle_bool 0 (t * dotq v' v) &&
   (Qeq_bool t 0 || negb (Qeq_bool (dotq v' v) 0)).
 
+Definition len_min_sq : Q := 1 # 1000000000000.     (* (1e-6)^2 *)
+
 Definition rel_cell (v : list Q) (t nobs : Q) (vset vor : list Q) : bool :=
   let s := sumsq_q v in
   (* getter: non-negative root of the sum of squares *)
   Qle_bool 0 nobs && Qle_bool (Qabs (nobs * nobs - s)) (2 * tolr * s) &&
   (* setter *)
   (if Qeq_bool s 0 then all_zero vset && (length vset =? length v)%nat
-   else scaled_ok v vset t) &&
+   else if Qle_bool len_min_sq s then scaled_ok v vset t
+   else (length vset =? length v)%nat (* lengths below 1e-6: outside the quantifier *)) &&
   (* orientation *)
   (if Qle_bool nobs (orient_atol * (1 - band)) then all_zero vor && (length vor =? length v)%nat
    else if Qle_bool (orient_atol * (1 + band)) nobs then scaled_ok v vor 1
